@@ -562,6 +562,7 @@ type vcSeq[T any] []T
 func vcElemsOf[T any](s []T) vcSeq[T]   { return append(vcSeq[T](nil), s...) }
 func vcOff[T any](s []T) int             { return 0 }
 func vcSeqAt[T any](q vcSeq[T], i int) T { return q[i] }
+func vcMapSeq[T any](f func(int) T) vcSeq[T] { panic("vc: unbounded comprehension evaluated at run time") }
 func vcIte[T any](c bool, a, b T) T {
 	if c {
 		return a
